@@ -88,7 +88,9 @@ def node_fns(facts, base):
 
 def children_loop_iterations(f, E):
     """iterations of loops over m_children entered on this path (range-for, iterator loops, while loops: by the container the loop test is about)"""
-    conds = {n.n('c').id for n in f.nodes() if n.k in ('rangefor', 'for', 'while', 'do') and n.n('c') is not None}
+    # loops of the function itself and of every function of the same translation unit it may inline (a traversal helper such as
+    # visitChildren(level, visitor) holds the loop over m_children, the visitor closure holds the recursive call)
+    conds = {n.n('c').id for g in f.tu.functions for n in g.nodes() if n.k in ('rangefor', 'for', 'while', 'do') and n.n('c') is not None}
     vis = [(i, c) for i, c in loop_visits(E, conds) if c == 'm_children']
     return len(vis), conds
 
@@ -105,7 +107,13 @@ def _no_observers_branch(P):
 
 
 def self_recursive(f):
-    return any(n.k == 'call' and strip_targs(n.calleeq or '') == f.gname for n in f.nodes())
+    """f calls itself, directly or from a closure written inside it (a visitor handed to a traversal helper)"""
+    if any(n.k == 'call' and strip_targs(n.calleeq or '') == f.gname for n in f.nodes()): return True
+    for lam in [n for n in f.nodes() if n.k == 'lambda']:
+        loc = lam.d.get('fnloc')
+        lf = next((g for g in f.tu.functions if g.loc == loc and g.d.get('lambda')), None)
+        if lf is not None and any(n.k == 'call' and strip_targs(n.calleeq or '') == f.gname for n in lf.nodes()): return True
+    return False
 
 
 class RouterAnalysis:
